@@ -69,11 +69,13 @@ def guard_kw(g):
     return ""
 
 
-def callbacks_src(spec):
+def callbacks_src(spec, decorators=False):
     lines = ["    def ok(self):", "        return self.flags.pop(0) if self.flags else True"]
     evs = list(spec["events"]) + (["anyev"] if spec["any"] else [])
     for e in evs:
         for ph in ("before", "on", "after"):
+            if decorators and ph == "on":
+                continue  # the decorated function that DECLARES the event is its `on` action (written with the transitions)
             lines += [f"    def {ph}_{e}(self):", f"        self.trace.append('{ph}_{e}')"]
     for s in spec["ids"]:
         lines += [f"    def on_enter_{s}(self):", f"        self.__dict__.setdefault('trace', []).append('on_enter_{s}')",
@@ -159,26 +161,37 @@ def render(spec, style, name):
             mine = [t for t in T if e in t[0]]
             if not mine:
                 continue
+            if style == "mixed_inline" and len(mine) > 1:
+                es, s_, d_, g_ = mine[0]
+                body.append(f"    {e} = " + " | ".join([tr(((e,), s_, d_, g_), "str")] + [tr(((e,), t[1], t[2], t[3])) for t in mine[1:]]))
+                continue
             if style == "mixed" and len(mine) > 1:
                 # the first transition of this event names it with event="..."; the others come through the attribute
                 es, s_, d_, g_ = mine[0]
                 body.append("    " + tr(((e,), s_, d_, g_), "str"))
                 mine = mine[1:]
-            body.append(f"    {e} = " + " | ".join(tr(((e,), t[1], t[2], t[3])) for t in mine))
+            chain = " | ".join(tr(((e,), t[1], t[2], t[3])) for t in mine)
+            if style == "decorator":
+                # `@<transitions> def <event>(self): ...` declares the event; the function is its `on` action
+                body += [f"    @({chain})", f"    def {e}(self):", f"        self.trace.append('on_{e}')"]
+            else:
+                body.append(f"    {e} = " + chain)
     if spec["any"]:
         a = spec["any"]
         if style in ("any",):
             body.append(f"    anyev = {P}{a['target']}.from_.any({guard_kw(a['guard']).lstrip(', ')})")
+        elif style == "decorator":
+            body += ["    @(" + " | ".join(any_explicit(spec, P)) + ")", "    def anyev(self):", "        self.trace.append('on_anyev')"]
         else:
             body.append("    anyev = " + " | ".join(any_explicit(spec, P)))
-    cls = [f"class {name}(StateMachine):"] + body + callbacks_src(spec)
+    cls = [f"class {name}(StateMachine):"] + body + callbacks_src(spec, decorators=(style == "decorator"))
     if style == "subclass":
         cls = [f"class Base_{name}(StateMachine):"] + body + callbacks_src(spec) + ["", f"class {name}(Base_{name}):", "    pass"]
     return "\n".join(L + cls) + "\n"
 
 
-STYLES = ["plain", "from_", "event_str", "event_list", "states_first", "events_first", "mixed", "itself", "enum", "intenum",
-          "states_dict", "subclass", "any"]
+STYLES = ["plain", "from_", "event_str", "event_list", "states_first", "events_first", "mixed", "mixed_inline", "decorator", "itself",
+          "enum", "intenum", "states_dict", "subclass", "any"]
 
 
 def observe(cls, seqs):
